@@ -132,11 +132,13 @@ Proof. exact (conj prop_type_table (conj abi_os_table (conj Elf_Prpsinfo_spec ug
 Print Assumptions C14_tables.
 
 (* the Switch of Elf_Prop selects: native word for a stack size of native width, a 4-byte word
-   for the x86 / AArch64 bit masks, raw bytes for everything else *)
+   for the x86 / AArch64 bit masks of 4 bytes, raw bytes for everything else (any other type, and a
+   stack size or bit mask that declares another size: the data are always the pr_datasz bytes, so the
+   struct is exactly as long as the stride of the list) *)
 Theorem C14_property_switch : forall c,
   prop_case c GNU_PROPERTY_STACK_SIZE (Z.of_nat (native (scfg_of c))) = Some (native (scfg_of c)) /\
   (forall ty, is_word_prop ty = true -> prop_case c ty 4 = Some 4%nat) /\
-  (forall ty dsz, is_word_prop ty = false ->
+  (forall ty dsz, (is_word_prop ty && (dsz =? 4))%bool = false ->
      ((ty =? GNU_PROPERTY_STACK_SIZE) && (dsz =? Z.of_nat (native (scfg_of c))))%bool = false ->
      prop_case c ty dsz = None).
 Proof. exact (fun c => conj (prop_case_stack c) (conj (prop_case_word c) (prop_case_raw c))). Qed.
@@ -314,4 +316,20 @@ Example C14_ex_adjacent :
   iter_notes ex_cfg img (fun _ => 0) 3 (zlen (encode_notes sc (a ++ b))) = (expected_notes sc 3 (a ++ b), None) /\
   iter_notes ex_cfg img (fun _ => 0) (3 + la) (zlen (encode_notes sc b)) = (expected_notes sc (3 + la) b, None) /\
   length (expected_notes sc 3 a) = 2%nat /\ length (expected_notes sc 3 (a ++ b)) = 4%nat.
+Proof. vm_compute. repeat split; reflexivity. Qed.
+
+(* a property list in which bit-mask types declare 8, 0 and 12 bytes, each followed by further
+   properties: framed by pr_datasz, data = those bytes, the following properties found in place *)
+Example C14_ex_odd_word_props :
+  let ps := [ (GRaw 0xc0000002 [1; 2; 3; 4; 5; 6; 7; 8], []); (GWord 0xc0008002 7, [9; 9; 9; 9]);
+              (GRaw 0xc0000000 [], []); (GStack 0x2000, []); (GRaw 0xc0010001 [1; 2; 3; 4; 5; 6; 7; 8; 9; 10; 11; 12], [5; 5; 5; 5]);
+              (GWord 0xc0000002 3, [9; 9; 9; 9]) ] in
+  let n := {| n_name := Some GNU; n_npad := []; n_type := 5; n_desc := DProps ps; n_dpad := [] |} in
+  wf_notes (scfg_of ex_cfg) [n] = true /\
+  iter_notes ex_cfg (encode_notes (scfg_of ex_cfg) [n]) (fun _ => 0) 0 (zlen (encode_notes (scfg_of ex_cfg) [n]))
+  = (expected_notes (scfg_of ex_cfg) 0 [n], None) /\
+  match expected_notes (scfg_of ex_cfg) 0 [n] with
+  | [o] => match o_desc o with DVProps l => length l = 6%nat | _ => False end
+  | _ => False
+  end.
 Proof. vm_compute. repeat split; reflexivity. Qed.
